@@ -249,7 +249,7 @@ PROPS = {
     "C15": {
         "pkg": "c15",
         "stages": [{"run": "^TestPropTimeout", "quick": (8000, 4), "thorough": (100000, 16)},
-                   {"run": "^TestPropCancel$", "quick": (40, 3), "thorough": (300, 8), "timeout": {"quick": 900, "thorough": 3600}}],
+                   {"run": "^TestPropCancel$", "quick": (40, 3), "thorough": (300, 8), "timeout": {"quick": 900, "thorough": 3600}, "shrinktime": "2s"}],
         "technique": "property-based testing (rapid) + enumeration: grpc-timeout strings from the grammar and malformed shapes against an independent decoder and a bracketing deadline oracle; cancellation/disconnect at handler-announced blocking points over real connections with a bounded-liveness oracle",
         "level_text": "(a) Generated and enumerated grpc-timeout strings: for legal values the handler's ctx.Deadline() must lie in [t_before+T, t_after+T] (no tolerance constant), "
                       "malformed values must be refused without running the handler. (b) Cancellation: grpc-go (h2c), plain HTTP/1.1 and gRPC-web over real connections are cancelled or "
@@ -264,7 +264,7 @@ PROPS = {
     },
     "C10": {
         "pkg": "c10",
-        "stages": [{"run": "^TestProp$", "quick": (500, 8), "thorough": (4000, 16), "timeout": {"quick": 900, "thorough": 5400}}],
+        "stages": [{"run": "^TestProp$", "quick": (500, 8), "thorough": (4000, 16), "timeout": {"quick": 900, "thorough": 5400}, "shrinktime": "5s"}],
         "technique": "property-based testing (rapid): generated lock-step call scripts run directly against a real reflection-enabled backend and through larking (RegisterConn); differential comparison of backend and client transcripts",
         "level_text": "Generated call scripts (unary and the three streaming shapes, request metadata incl. -bin and multi-valued keys, ping-pong or batch discipline, backend failure before the "
                       "first response / after k responses / after the client's half-close, status with message and details) are executed with a real grpc-go client directly against the "
